@@ -24,6 +24,7 @@ BASE_CFG = {
     # polars 1.44 has no Expr.cumsum/cummax/...: ordered windows mostly raise; keep them, but fewer
     "ops": {"ordered_window": 1, "natural_join": 7},
     "diffname_prob": 0.4,
+    "extra_jointypes": ["full", "right"],
 }
 
 
